@@ -50,6 +50,13 @@ def inputs(tier):
                     if nets in ("net0", "cluster1.net6 cluster2.net7") and rn not in ("T1", "T3", "GUI"):
                         continue
                 out.append({"id": f"{rn}/{vn}/{nets.replace(' ', '+')}", "restriction": r, "vm_strs": v, "nets": nets})
+    # every pair of leaf tests (a dependant selected together with exactly one of its producers, siblings sharing setup, ...)
+    leaf_tests = ["quicktest.tutorial1", "quicktest.tutorial2.files", "tutorial3.no_remote", "tutorial_gui.client_noop", "tutorial_gui.client_clicked",
+                  "tutorial_get.explicit_noop", "tutorial_get.explicit_clicked", "tutorial_get.implicit_both", "tutorial_finale"]
+    import itertools as _it
+    for a, b in _it.combinations(leaf_tests, 2):
+        for nets in (("net1",) if q else ("net1", "net1 net2")):
+            out.append({"id": f"PAIR[{a}+{b}]/default/{nets.replace(' ', '+')}", "restriction": f"only leaves..{a},leaves..{b}\n", "vm_strs": DEFAULT_VMS, "nets": nets})
     if q:
         # three workers on the deeply cloned selections (every pair of copies must be linked, not only a star around the first)
         for rn in ("FIN", "GET", "T12"):
